@@ -195,7 +195,7 @@ pub fn main(args: &Args) -> i32 {
         use std::hash::{Hash, Hasher};
         let mut h = std::collections::hash_map::DefaultHasher::new();
         fine.hash(&mut h);
-        if distinct_fine.insert(h.finish()) {
+        if distinct_fine.insert(h.finish()) && distinct_fine.len() <= args.num("fine-max", usize::MAX) {
             writeln!(fine_w, "{}", reset).unwrap();
             for l in &fine {
                 writeln!(fine_w, "{}", l).unwrap();
